@@ -99,6 +99,11 @@ func main() {
 			ss = append(ss, show(s))
 		}
 		fmt.Fprintf(wi, "%s # %s\n", strings.Join(ss, ";"), strings.Join(kv, " "))
+		if wf {
+			// the premises of the component theorems (Idn/MergeIndex.lean) hold on every well-formed pair
+			fmt.Fprintf(wo, "mrgwf %s %s\n", enc(rd1), enc(rd2))
+			fmt.Fprintln(wi, "true")
+		}
 	}
 	fmt.Fprintln(os.Stderr, "well-formed:", nwf, "of", count)
 }
